@@ -362,7 +362,10 @@ func viol(kind, sig, format string, a ...any) *core.Violation {
 // the run
 
 func (p Prop) Run(r *core.Run) *core.Violation {
+	r.Sim.OrderMode = verifsim.OrderCanonical
+	r.Sim.Activate()
 	f := genFixture(r)
+	r.Sim.Deactivate()
 	ops := f.operations()
 	roots, names := f.roots()
 	if r.Tracing {
